@@ -11,7 +11,11 @@ from props import corpus, jsontools, progen
 CONSTS = ["None", "True", "False", "0", "1", "-1", "2**53-1", "2**53", "-2**53", "-(2**53)+1", "10**40", "-10**40",
           "0.0", "-0.0", "1.5", "1e400", "-1e400", "1e400 - 1e400", "1e-320", "1j", "-0j", "1e400j - 1e400j", "(1e400 - 1e400) * 1j", "1e400 + 1e400j",
           "'text'", "''", "'\\ud800'", "'a\\udfffb'", "'\\U0001F600'", "b''", "b'\\x00\\xff'", "...", "()", "(1, 2.0, 'x')",
-          "((), ((1,),), None)", "(1e400 - 1e400, -0.0)", "(1e400j - 1e400j, (1e400 - 1e400,))", "('\\udc00', b'y', ...)", "(10**30, True, 1.0, 1)"]
+          "((), ((1,),), None)", "(1e400 - 1e400, -0.0)", "(1e400j - 1e400j, (1e400 - 1e400,))", "('\\udc00', b'y', ...)", "(10**30, True, 1.0, 1)",
+          # int literals (always constants, whatever the folding limits): around 2^2048 where the text form switches from
+          # decimal to hexadecimal, and far beyond the 4300 digits CPython converts to / from decimal by default
+          "1" + "0" * 40, "-1" + "0" * 40, "0x" + "f" * 512, "0x1" + "0" * 512, "-0x" + "f" * 512, "-0x1" + "0" * 512,
+          "1" + "0" * 700, "0x" + "f" * 5000, "-0x" + "f" * 5000, "(0x" + "7" * 4000 + ", 1, (0o" + "7" * 7000 + ",))"]
 
 
 def corruptions(doc):
